@@ -18,7 +18,7 @@ pub const ENTRY: Entry = Entry {
     rule: "(a) complete closure (stateright BFS) over the 8 orientations with actions rotate(0/90/180/270), flip_horizontal, \
            flip_vertical on the real Orientation API. Geometric oracle computed through the real Display and the reference controller: \
            for a labelled asymmetric image I on a non-square window with offset, picture(o.op(), I) == picture(o, T_op(I)) where T is \
-           rotate-clockwise / mirror-left-right / mirror-top-bottom of the image. Group laws (four quarter turns, double flip, h then v \
+           rotate-clockwise / mirror-left-right / mirror-top-bottom of the image. The same words (length <= 3, from every orientation) applied step by step with set_orientation on one live display show the picture of a display built with the result. Group laws (four quarter turns, double flip, h then v \
            = half turn, rotations add mod 360) on all words of length <= 4 from every orientation. (b) Rotation::try_from_degree on ALL \
            2^32 i32 values against an i64 oracle (Ok iff angle mod 90 == 0, value == angle mod 360), with overflow checks on and off; \
            Rotation::rotate on all 16 pairs. Non-trivial = accepted angles and state-changing transitions.",
@@ -53,6 +53,43 @@ fn picture(o: u8, img: &dyn Fn(u32, u32) -> u32, cfg0: &Cfg) -> Result<Vec<u32>,
         }
     }
     Ok(v)
+}
+
+/// picture shown when ONE live display, initialised with orientation `start`, is taken through the orientations
+/// start.op1(), start.op1().op2(), ... by set_orientation and the labelled image is then drawn
+fn picture_live(start: u8, word: &[u32], img: &dyn Fn(u32, u32) -> u32, cfg0: &Cfg) -> Result<(u8, Vec<u32>), String> {
+    let cfg = Cfg { orient: start, ..*cfg0 };
+    let mut rig = Rig::new(&cfg);
+    if !rig.init.is_ok() {
+        return Err(format!("init {:?}", rig.init));
+    }
+    let mut o = orient_of(start);
+    for &a in word {
+        o = apply_op(o, a);
+        let out = rig.apply(&Op::SetOrientation(orient_idx(o)));
+        if !out.is_ok() {
+            return Err(format!("set_orientation {out:?}"));
+        }
+    }
+    let g = Cfg { orient: orient_idx(o), ..*cfg0 }.geo();
+    let (lw, lh) = g.lsize();
+    let mut px = Vec::new();
+    for y in 0..lh {
+        for x in 0..lw {
+            px.push((x as i32, y as i32, img(x, y)));
+        }
+    }
+    let out = rig.apply(&Op::DrawIter(Pixels::List(px)));
+    if !out.is_ok() {
+        return Err(format!("draw {out:?}"));
+    }
+    let mut v = Vec::new();
+    for y in g.oy..g.oy + g.h {
+        for x in g.ox..g.ox + g.w {
+            v.push(rig.ctl.mem.get(x, y));
+        }
+    }
+    Ok((orient_idx(o), v))
 }
 
 fn apply_op(o: Orientation, a: u32) -> Orientation {
@@ -246,6 +283,52 @@ fn run(ctx: &Ctx) -> Part {
                 }
             }
         }
+        // live displays: the same words applied step by step with set_orientation on one display object show the
+        // same picture as a display built with the resulting orientation (words of length <= 3 from every orientation,
+        // non-default colour and refresh order so that the address mode carries bits the orientation must not disturb)
+        let mut live_cfg = Cfg::tiny(4, 3, false, Transport::RecSerial, (3, 2, 1, 0), 0);
+        live_cfg.bgr = true;
+        live_cfg.refresh = 3;
+        let label = |x: u32, y: u32| 1 + y * 16 + x;
+        let mut words: Vec<Vec<u32>> = Vec::new();
+        for a in 0..6u32 {
+            words.push(vec![a]);
+            for b in 0..6u32 {
+                words.push(vec![a, b]);
+                for c in 0..6u32 {
+                    words.push(vec![a, b, c]);
+                }
+            }
+        }
+        let fresh: Vec<Result<Vec<u32>, String>> = (0..8u8).map(|o| picture(o, &label, &live_cfg)).collect();
+        let jobs: Vec<(u8, &Vec<u32>)> = (0..8u8).flat_map(|s| words.iter().map(move |w| (s, w))).collect();
+        let a = jobs
+            .par_iter()
+            .fold(Acc::new, |mut acc, &(s, w)| {
+                acc.evaluations += 1;
+                acc.nontrivial += 1;
+                acc.transitions += w.len() as u64;
+                acc.count("live_display_words", 1);
+                let bad = match picture_live(s, w, &label, &live_cfg) {
+                    Ok((o, v)) => match &fresh[o as usize] {
+                        Ok(f) if *f == v => None,
+                        Ok(_) => Some(format!("the picture differs from that of a display built with the resulting orientation {o}")),
+                        Err(e) => Some(format!("fresh display: {e}")),
+                    },
+                    Err(e) => Some(e),
+                };
+                if let Some(m) = bad {
+                    acc.violation(Violation {
+                        prop: ctx.prop.clone(),
+                        sig: "live-display/picture".into(),
+                        msg: format!("display initialised with orientation {s}, then set_orientation along {:?}: {m}", w.iter().map(|a| op_name(*a)).collect::<Vec<_>>()),
+                        case: json!({"kind": "c15", "variant": ctx.variant, "leg": "live", "cfg": live_cfg, "root": s, "actions": w}),
+                    });
+                }
+                acc
+            })
+            .reduce(Acc::new, Acc::merge);
+        acc = acc.merge(a);
         let (n, f) = group_laws();
         acc.evaluations += n;
         acc.count("group_law_checks", n);
@@ -317,6 +400,24 @@ pub fn replay(case: &serde_json::Value) -> i32 {
         let a = case["angle"].as_i64().unwrap() as i32;
         println!("try_from_degree({a}) = {:?}", std::panic::catch_unwind(|| Rotation::try_from_degree(a)));
         return 0;
+    }
+    if case["leg"] == "live" {
+        let cfg: Cfg = serde_json::from_value(case["cfg"].clone()).unwrap();
+        let s = case["root"].as_u64().unwrap() as u8;
+        let w: Vec<u32> = serde_json::from_value(case["actions"].clone()).unwrap();
+        let label = |x: u32, y: u32| 1 + y * 16 + x;
+        let live = picture_live(s, &w, &label, &cfg);
+        println!("live display from orientation {s} along {:?}: {live:?}", w.iter().map(|a| op_name(*a)).collect::<Vec<_>>());
+        if let Ok((o, v)) = live {
+            let f = picture(o, &label, &cfg);
+            println!("display built with orientation {o}: {f:?}");
+            if f.as_ref().ok() == Some(&v) {
+                println!("REPLAY: passes");
+                return 0;
+            }
+        }
+        println!("REPLAY: live-display/picture");
+        return 1;
     }
     if case["leg"] == "group" {
         println!("{:?}", group_laws());
